@@ -123,16 +123,25 @@ Definition closer_bytes (k : ttype) : list Z :=
 Definition is_closer_ty (k : ttype) : Prop := k = TStartTagClose \/ k = TStartTagCloseVoid \/ k = TStartTagClosePI.
 
 (* what may follow a name inside a tag: whitespace, '>', '/>', '?>' (and '=' after an attribute name) *)
-Definition name_end (eq : bool) (l : list Z) : Prop :=
-  exists c t, l = c :: t /\ name_stop eq c (getz t 0) = true /\ ((c = 47 \/ c = 63) -> t <> []).
+Definition name_end (pi eq : bool) (l : list Z) : Prop :=
+  exists c t, l = c :: t /\ name_stop pi eq c (getz t 0) = true /\ ((c = 47 \/ c = 63) -> t <> []).
 
 (* ---- the general shape of what the lexer returns inside a tag (start tag or processing instruction) ------- *)
 (* a piece: optional whitespace, a name (bytes that do not stop the name loop: '/' and '?' are allowed unless
    followed by '>'), then nothing, or '=' and an unquoted value, or '=' and a quoted value *)
+(* the two bytes ? > do not occur in l *)
+Fixpoint no_pi_end (l : list Z) : Prop :=
+  match l with
+  | c :: ((c1 :: _) as t) => ~ (c = 63 /\ c1 = 62) /\ no_pi_end t
+  | _ => True
+  end.
+
 Inductive gval :=
 | VNone
 | VUnq (ws1 ws2 val : list Z)
-| VQuo (ws1 ws2 : list Z) (q : Z) (val : list Z).
+| VQuo (ws1 ws2 : list Z) (q : Z) (val : list Z)
+(* in a processing instruction: a quoted value that is not closed before the instruction's ?> *)
+| VQuoCut (ws1 ws2 : list Z) (q : Z) (val : list Z).
 Record gattr := mkG { g_lead : list Z; g_name : list Z; g_val : gval }.
 
 Definition render_gval (v : gval) : list Z :=
@@ -140,10 +149,12 @@ Definition render_gval (v : gval) : list Z :=
   | VNone => []
   | VUnq w1 w2 x => w1 ++ [61] ++ w2 ++ x
   | VQuo w1 w2 q x => w1 ++ [61] ++ w2 ++ [q] ++ x ++ [q]
+  | VQuoCut w1 w2 q x => w1 ++ [61] ++ w2 ++ [q] ++ x
   end.
 Definition norm_gval (v : gval) : list Z :=
   match v with
   | VQuo w1 w2 q x => w1 ++ [61] ++ w2 ++ [q] ++ map ws2sp x ++ [q]
+  | VQuoCut w1 w2 q x => w1 ++ [61] ++ w2 ++ [q] ++ map ws2sp x
   | _ => render_gval v
   end.
 Definition gval_obs (v : gval) : option (list Z) :=
@@ -151,6 +162,7 @@ Definition gval_obs (v : gval) : option (list Z) :=
   | VNone => None
   | VUnq _ _ x => Some x
   | VQuo _ _ q x => Some ([q] ++ map ws2sp x ++ [q])
+  | VQuoCut _ _ q x => Some ([q] ++ map ws2sp x)
   end.
 Definition render_gattr (a : gattr) : list Z := g_lead a ++ g_name a ++ render_gval (g_val a).
 Definition norm_gattr (a : gattr) : list Z := g_lead a ++ g_name a ++ norm_gval (g_val a).
@@ -159,10 +171,10 @@ Definition render_gattrs (l : list gattr) : list Z := concat (map render_gattr l
 Definition norm_gattrs (l : list gattr) : list Z := concat (map norm_gattr l).
 
 (* no byte of n stops the name loop; nxt is the byte after n *)
-Fixpoint name_run (eq : bool) (n : list Z) (nxt : Z) : Prop :=
+Fixpoint name_run (pi eq : bool) (n : list Z) (nxt : Z) : Prop :=
   match n with
   | [] => True
-  | c :: t => name_stop eq c (match t with [] => nxt | c1 :: _ => c1 end) = false /\ name_run eq t nxt
+  | c :: t => name_stop pi eq c (match t with [] => nxt | c1 :: _ => c1 end) = false /\ name_run pi eq t nxt
   end.
 
 (* the first byte of rest that is not whitespace exists and is not '=' *)
@@ -170,25 +182,30 @@ Definition next_not_eq (rest : list Z) : Prop :=
   exists w c t, rest = w ++ c :: t /\ Forall (fun x => is_ws x = true) w /\ is_ws c = false /\ c <> 61.
 
 (* side conditions of a piece followed (inside the tag) by rest *)
-Definition gattr_ok (a : gattr) (rest : list Z) : Prop :=
+Definition gattr_ok (pi : bool) (a : gattr) (rest : list Z) : Prop :=
   Forall (fun x => is_ws x = true) (g_lead a) /\
   match g_val a with
-  | VNone => g_name a <> [] /\ name_run true (g_name a) (getz rest 0) /\ name_end true rest /\ next_not_eq rest
+  | VNone => g_name a <> [] /\ name_run pi true (g_name a) (getz rest 0) /\ name_end pi true rest /\ next_not_eq rest
   | VUnq w1 w2 x =>
       Forall (fun c => is_ws c = true) w1 /\ Forall (fun c => is_ws c = true) w2 /\ (g_name a = [] -> w1 = []) /\
-      name_run true (g_name a) (getz (w1 ++ [61]) 0) /\
-      name_run false x (getz rest 0) /\ name_end false rest /\
+      name_run pi true (g_name a) (getz (w1 ++ [61]) 0) /\
+      name_run pi false x (getz rest 0) /\ name_end pi false rest /\
       is_ws (getz (x ++ rest) 0) = false /\ getz (x ++ rest) 0 <> 34 /\ getz (x ++ rest) 0 <> 39
   | VQuo w1 w2 q x =>
       Forall (fun c => is_ws c = true) w1 /\ Forall (fun c => is_ws c = true) w2 /\ (g_name a = [] -> w1 = []) /\
-      name_run true (g_name a) (getz (w1 ++ [61]) 0) /\
-      (q = 34 \/ q = 39) /\ Forall (fun c => c <> q /\ c <> 0) x
+      name_run pi true (g_name a) (getz (w1 ++ [61]) 0) /\
+      (q = 34 \/ q = 39) /\ Forall (fun c => c <> q /\ c <> 0) x /\ (pi = true -> no_pi_end x)
+  | VQuoCut w1 w2 q x =>
+      Forall (fun c => is_ws c = true) w1 /\ Forall (fun c => is_ws c = true) w2 /\ (g_name a = [] -> w1 = []) /\
+      name_run pi true (g_name a) (getz (w1 ++ [61]) 0) /\
+      (q = 34 \/ q = 39) /\ Forall (fun c => c <> q /\ c <> 0) x /\ no_pi_end x /\
+      pi = true /\ exists t, rest = 63 :: 62 :: t
   end.
 
-Fixpoint gattrs_ok (l : list gattr) (tail : list Z) : Prop :=
+Fixpoint gattrs_ok (pi : bool) (l : list gattr) (tail : list Z) : Prop :=
   match l with
   | [] => True
-  | a :: t => gattr_ok a (render_gattrs t ++ tail) /\ gattrs_ok t tail
+  | a :: t => gattr_ok pi a (render_gattrs t ++ tail) /\ gattrs_ok pi t tail
   end.
 
 Inductive item :=
@@ -260,12 +277,12 @@ Definition item_ok (it : item) : Prop :=
   | IComment b => Forall (fun c => c <> 0) b /\ no_occurrence pat_comment_end b
   | ICdata b => Forall (fun c => c <> 0) b /\ no_occurrence pat_cdata_end b
   | IDoctype ps => Forall dpiece_ok ps
-  | IPI t attrs ws => is_name false t /\ Forall attr_ok attrs /\ all_ws ws
+  | IPI t attrs ws => is_name false t /\ Forall attr_ok attrs /\ all_ws ws /\ Forall (fun a => no_pi_end (a_val a)) attrs
   | IStart n attrs ws void => is_name false n /\ getz n 0 <> 33 /\ Forall attr_ok attrs /\ all_ws ws
   | IEnd n ws => is_name false n /\ all_ws ws
   | ITag pi n ps ws k =>
-      is_name false n /\ (pi = false -> getz n 0 <> 33) /\ all_ws ws /\ is_closer_ty k /\
-      gattrs_ok ps (ws ++ closer_bytes k) /\ name_end false (render_gattrs ps ++ ws ++ closer_bytes k)
+      is_name false n /\ (pi = false -> getz n 0 <> 33) /\ all_ws ws /\ is_closer_ty k /\ (pi = true -> k = TStartTagClosePI) /\
+      gattrs_ok pi ps (ws ++ closer_bytes k) /\ name_end pi false (render_gattrs ps ++ ws ++ closer_bytes k)
   end.
 
 Definition is_text (it : item) : bool := match it with IText _ => true | _ => false end.
@@ -283,8 +300,8 @@ Definition doc_ok (l : list item) : Prop := Forall item_ok l /\ no_adjacent_text
 
 (* ---- states ------------------------------------------------------------------------------------------------------------ *)
 (* outside / inside a tag, everything before [pre] shifted, [suf] still to read *)
-Definition sout (pre suf : list Z) (tx : sl) : xst := mkX (cur pre [] suf) false false tx None.
-Definition sin (pre suf : list Z) (tx ax : sl) : xst := mkX (cur pre [] suf) false true tx ax.
+Definition sout (pre suf : list Z) (tx : sl) : xst := mkX (cur pre [] suf) false false false tx None.
+Definition sin (pi : bool) (pre suf : list Z) (tx ax : sl) : xst := mkX (cur pre [] suf) false true pi tx ax.
 
 Lemma obs_cur pre tok suf : obs_sl (lbuf (cur (pre ++ tok) [] suf)) (Some (len pre, len pre + len tok)) = Some tok.
 Proof.
@@ -339,7 +356,7 @@ Proof.
   intros Hne Ht Hc. eexists.
   assert (Hn : next (sout pre (t ++ c :: r) tx) =
                Some (TText, Some (len pre, len pre + len t), sout (pre ++ t) (c :: r) (Some (len pre, len pre + len t)))).
-  { unfold sout, next. cbn [xin xr xerr xattr xtext]. rewrite suffix_cur.
+  { unfold sout, next. cbn [xin xpi xr xerr xattr xtext]. rewrite suffix_cur.
     rewrite (scan_while_app (until 60) t c r) by (try apply forall_until; try assumption; unfold until; lia).
     cbn [option_bind]. rewrite mv_cur by reflexivity. cbn [app]. rewrite pk_cur0. cbn [option_bind].
     rewrite mark_cur. assert (0 < len t) by (destruct t; [congruence|rewrite len_cons; pose proof (len_nonneg t); lia]).
@@ -355,22 +372,22 @@ Proof. change (c :: suf) with ([c] ++ suf). apply mv_cur. reflexivity. Qed.
 Lemma mv_cur2 pre tk c1 c2 suf : mv (cur pre tk (c1 :: c2 :: suf)) 2 = cur pre (tk ++ [c1; c2]) suf.
 Proof. change (c1 :: c2 :: suf) with ([c1; c2] ++ suf). apply mv_cur. reflexivity. Qed.
 
-Definition markup_result (ty : ttype) (inTag : bool) (r : option sres) : option (ttype * sl * xst) :=
-  r <- r ;; Some (ty, Some (snd (fst r)), mkX (snd r) false inTag (fst (fst r)) None).
+Definition markup_result (ty : ttype) (inTag inPI : bool) (r : option sres) : option (ttype * sl * xst) :=
+  r <- r ;; Some (ty, Some (snd (fst r)), mkX (snd r) false inTag inPI (fst (fst r)) None).
 
 Lemma next_markup pre c1 r tx :
   next (sout pre (60 :: c1 :: r) tx) =
-  if c1 =? 47 then markup_result TEndTag false (shift_end_tag (cur pre [60; 47] r))
+  if c1 =? 47 then markup_result TEndTag false false (shift_end_tag (cur pre [60; 47] r))
   else
     sp <- (if c1 =? 33 then bang (cur pre [60; 33] r) else Some None) ;;
     match sp with
-    | Some (ty, res) => markup_result ty false (Some res)
+    | Some (ty, res) => markup_result ty false false (Some res)
     | None =>
-        if c1 =? 63 then markup_result TStartTagPI true (shift_start_tag (cur pre [60; 63] r))
-        else markup_result TStartTag true (shift_start_tag (cur pre [60] (c1 :: r)))
+        if c1 =? 63 then markup_result TStartTagPI true true (shift_start_tag true (cur pre [60; 63] r))
+        else markup_result TStartTag true false (shift_start_tag false (cur pre [60] (c1 :: r)))
     end.
 Proof.
-  unfold sout, next, markup_result. cbn [xin xr xerr xattr xtext]. rewrite suffix_cur.
+  unfold sout, next, markup_result. cbn [xin xpi xr xerr xattr xtext]. rewrite suffix_cur.
   change (scan_while (until 60) (60 :: c1 :: r)) with (Some 0). cbn [option_bind].
   rewrite mv_cur0, pk_cur0. cbn [option_bind]. rewrite mark_cur. change (len (@nil Z)) with 0.
   change (0 <? 0) with false. change (60 =? 60) with true. cbv iota.
@@ -382,12 +399,12 @@ Proof.
 Qed.
 
 (* a token produced by a shift* function, as observed *)
-Lemma steps_markup pre suf tx ty inTag res tokb textb pre' suf' :
-  next (sout pre suf tx) = markup_result ty inTag (Some res) -> ty <> TError ->
+Lemma steps_markup pre suf tx ty inTag inPI res tokb textb pre' suf' :
+  next (sout pre suf tx) = markup_result ty inTag inPI (Some res) -> ty <> TError ->
   snd res = cur pre' [] suf' ->
   obs_sl (lbuf (cur pre' [] suf')) (Some (snd (fst res))) = Some tokb ->
   obs_sl (lbuf (cur pre' [] suf')) (fst (fst res)) = textb ->
-  steps (sout pre suf tx) [(ty, Some tokb, textb, None)] (mkX (cur pre' [] suf') false inTag (fst (fst res)) None).
+  steps (sout pre suf tx) [(ty, Some tokb, textb, None)] (mkX (cur pre' [] suf') false inTag inPI (fst (fst res)) None).
 Proof.
   intros Hn Hty E1 E2 E3. unfold markup_result in Hn. cbn [option_bind] in Hn.
   pose proof (steps_one _ _ _ _ Hn Hty) as S. unfold etok_of in S. cbn [xr xtext xattr] in S.
@@ -405,7 +422,7 @@ Proof.
   intros Hz Hno. eexists. unfold open_comment. cbn [app].
   set (res := (Some (len pre + 4, len pre + 4 + len b), (len pre, len pre + len ([60; 33; 45; 45] ++ b ++ pat_comment_end)),
                cur (pre ++ [60; 33; 45; 45] ++ b ++ pat_comment_end) [] r) : sres).
-  assert (Hn : next (sout pre (60 :: 33 :: 45 :: 45 :: b ++ pat_comment_end ++ r) tx) = markup_result TComment false (Some res)).
+  assert (Hn : next (sout pre (60 :: 33 :: 45 :: 45 :: b ++ pat_comment_end ++ r) tx) = markup_result TComment false false (Some res)).
   { rewrite next_markup. change (33 =? 47) with false. change (33 =? 33) with true. cbv iota.
     unfold bang. rewrite suffix_cur. change (at_l pat_comment (45 :: 45 :: b ++ pat_comment_end ++ r)) with (Some true).
     cbn [option_bind]. rewrite mv_cur2. cbn [app].
@@ -416,7 +433,7 @@ Proof.
     rewrite shift_c_cur. cbn [option_bind fst snd]. unfold markup_result, res. cbn [option_bind fst snd].
     rewrite mark_cur. rewrite <- !app_assoc. rewrite !len_app, len4.
     replace (len pre + (4 + len b)) with (len pre + 4 + len b) by lia. reflexivity. }
-  eapply (steps_markup pre _ tx TComment false res); [exact Hn|discriminate|reflexivity| |].
+  eapply (steps_markup pre _ tx TComment false false res); [exact Hn|discriminate|reflexivity| |].
   - unfold res. cbn [fst snd]. apply obs_cur.
   - unfold res. cbn [fst snd]. change ([60; 33; 45; 45] ++ b ++ pat_comment_end) with ([60; 33; 45; 45] ++ b ++ pat_comment_end).
     apply (obs_cur_in pre [60; 33; 45; 45] b pat_comment_end r); rewrite ?len4; lia.
@@ -434,7 +451,7 @@ Proof.
                (len pre, len pre + len ([60; 33; 91; 67; 68; 65; 84; 65; 91] ++ b ++ pat_cdata_end)),
                cur (pre ++ [60; 33; 91; 67; 68; 65; 84; 65; 91] ++ b ++ pat_cdata_end) [] r) : sres).
   assert (Hn : next (sout pre (60 :: 33 :: 91 :: 67 :: 68 :: 65 :: 84 :: 65 :: 91 :: b ++ pat_cdata_end ++ r) tx)
-               = markup_result TCdata false (Some res)).
+               = markup_result TCdata false false (Some res)).
   { rewrite next_markup. change (33 =? 47) with false. change (33 =? 33) with true. cbv iota.
     unfold bang. rewrite suffix_cur.
     change (at_l pat_comment (91 :: 67 :: 68 :: 65 :: 84 :: 65 :: 91 :: b ++ pat_cdata_end ++ r)) with (Some false).
@@ -451,7 +468,7 @@ Proof.
     rewrite shift_c_cur. cbn [option_bind fst snd]. unfold markup_result, res. cbn [option_bind fst snd].
     rewrite mark_cur. rewrite <- !app_assoc. rewrite !len_app, len9.
     replace (len pre + (9 + len b)) with (len pre + 9 + len b) by lia. reflexivity. }
-  eapply (steps_markup pre _ tx TCdata false res); [exact Hn|discriminate|reflexivity| |].
+  eapply (steps_markup pre _ tx TCdata false false res); [exact Hn|discriminate|reflexivity| |].
   - unfold res. cbn [fst snd]. apply obs_cur.
   - unfold res. cbn [fst snd].
     apply (obs_cur_in pre [60; 33; 91; 67; 68; 65; 84; 65; 91] b pat_cdata_end r); rewrite ?len9; lia.
@@ -711,7 +728,7 @@ Proof.
                (len pre, len pre + len ([60; 33; 68; 79; 67; 84; 89; 80; 69] ++ b ++ [62])),
                cur (pre ++ [60; 33; 68; 79; 67; 84; 89; 80; 69] ++ b ++ [62]) [] r) : sres).
   assert (Hn : next (sout pre (60 :: 33 :: 68 :: 79 :: 67 :: 84 :: 89 :: 80 :: 69 :: b ++ 62 :: r) tx)
-               = markup_result TDoctype false (Some res)).
+               = markup_result TDoctype false false (Some res)).
   { rewrite next_markup. change (33 =? 47) with false. change (33 =? 33) with true. cbv iota.
     unfold bang. rewrite suffix_cur.
     change (at_l pat_comment (68 :: 79 :: 67 :: 84 :: 89 :: 80 :: 69 :: b ++ 62 :: r)) with (Some false).
@@ -729,7 +746,7 @@ Proof.
     rewrite shift_c_cur. cbn [option_bind fst snd]. unfold markup_result, res. cbn [option_bind fst snd].
     rewrite mark_cur. rewrite <- !app_assoc. rewrite !len_app, len9.
     replace (len pre + (9 + len b)) with (len pre + 9 + len b) by lia. reflexivity. }
-  eapply (steps_markup pre _ tx TDoctype false res); [exact Hn|discriminate|reflexivity| |].
+  eapply (steps_markup pre _ tx TDoctype false false res); [exact Hn|discriminate|reflexivity| |].
   - unfold res. cbn [fst snd]. apply obs_cur.
   - unfold res. cbn [fst snd].
     apply (obs_cur_in pre [60; 33; 68; 79; 67; 84; 89; 80; 69] b [62] r); rewrite ?len9; lia.
@@ -775,7 +792,7 @@ Proof.
   set (res := (Some (len pre + 2, len pre + 2 + len n),
                (len pre, len pre + len ([60; 47] ++ n ++ ws ++ [62])),
                cur (pre ++ [60; 47] ++ n ++ ws ++ [62]) [] r) : sres).
-  assert (Hnx : next (sout pre (60 :: 47 :: n ++ ws ++ 62 :: r) tx) = markup_result TEndTag false (Some res)).
+  assert (Hnx : next (sout pre (60 :: 47 :: n ++ ws ++ 62 :: r) tx) = markup_result TEndTag false false (Some res)).
   { rewrite next_markup. change (47 =? 47) with true. cbv iota.
     unfold shift_end_tag. rewrite suffix_cur. rewrite app_assoc.
     rewrite (scan_while_app (until 62) (n ++ ws) 62 r)
@@ -799,7 +816,7 @@ Proof.
     unfold markup_result, res. cbn [option_bind fst snd]. rewrite mark_cur.
     rewrite <- !app_assoc. rewrite !len_app. change (len [60; 47]) with 2.
     replace (len pre + (2 + (len n + len ws)) - len ws) with (len pre + 2 + len n) by lia. reflexivity. }
-  eapply (steps_markup pre _ tx TEndTag false res); [exact Hnx|discriminate|reflexivity| |].
+  eapply (steps_markup pre _ tx TEndTag false false res); [exact Hnx|discriminate|reflexivity| |].
   - unfold res. cbn [fst snd]. apply obs_cur.
   - unfold res. cbn [fst snd].
     apply (obs_cur_in pre [60; 47] n (ws ++ [62]) r); change (len [60; 47]) with 2; lia.
@@ -808,44 +825,49 @@ Qed.
 (* ---- start tags and processing-instruction targets ------------------------------------------------------------------- *)
 (* what may follow a name inside a tag: whitespace, '>', "/>", "?>" (and '=' after an attribute name) *)
 
-Lemma scan_name_end eq n l : Forall (fun c => name_char eq c = true) n -> name_end eq l ->
-  scan_name eq (n ++ l) = Some (len n).
+Lemma scan_name_end pi eq n l : Forall (fun c => name_char eq c = true) n -> name_end pi eq l ->
+  scan_name pi eq (n ++ l) = Some (len n).
 Proof. intros Hn (c & t & -> & H1 & H2). apply scan_name_app; assumption. Qed.
 
-Lemma name_end_ws eq c t : is_ws c = true -> name_end eq (c :: t).
+Lemma name_end_ws pi eq c t : is_ws c = true -> name_end pi eq (c :: t).
 Proof.
   intros H. exists c, t. split; [reflexivity|]. unfold is_ws, name_stop in *. split; [lia|]. intros [->| ->]; discriminate.
 Qed.
 
 
-Lemma name_end_closer eq k r : is_closer_ty k -> name_end eq (closer_bytes k ++ r).
+Lemma name_end_closer pi eq k r : is_closer_ty k -> (pi = true -> k = TStartTagClosePI) ->
+  name_end pi eq (closer_bytes k ++ r).
 Proof.
-  intros [->|[->| ->]]; cbn [closer_bytes app]; eexists _, _; (split; [reflexivity|]); rewrite ?getz_cons_0;
-    (split; [destruct eq; reflexivity|]); intros Hc; first [discriminate | destruct Hc; discriminate].
+  intros Hk Hpi. destruct pi.
+  - rewrite (Hpi eq_refl). cbn [closer_bytes app]. exists 63, (62 :: r). split; [reflexivity|]. rewrite getz_cons_0.
+    split; [destruct eq; reflexivity|]. intros _. discriminate.
+  - destruct Hk as [->|[->| ->]]; cbn [closer_bytes app]; eexists _, _; (split; [reflexivity|]); rewrite ?getz_cons_0;
+      (split; [destruct eq; reflexivity|]); intros Hc; first [discriminate | destruct Hc; discriminate].
 Qed.
 
 (* the rest of a tag after a name: attributes, whitespace, closer *)
-Lemma name_end_tag_rest attrs ws k r : Forall attr_ok attrs -> all_ws ws -> is_closer_ty k ->
-  name_end false (render_attrs attrs ++ ws ++ closer_bytes k ++ r).
+Lemma name_end_tag_rest pi attrs ws k r : Forall attr_ok attrs -> all_ws ws -> is_closer_ty k ->
+  (pi = true -> k = TStartTagClosePI) ->
+  name_end pi false (render_attrs attrs ++ ws ++ closer_bytes k ++ r).
 Proof.
-  intros Ha Hw Hk. destruct attrs as [|a attrs].
+  intros Ha Hw Hk Hpi. destruct attrs as [|a attrs].
   - cbn [render_attrs map concat app]. destruct ws as [|w ws]; cbn [app].
-    + apply name_end_closer. exact Hk.
+    + apply name_end_closer; assumption.
     + apply name_end_ws. inversion Hw; assumption.
   - inversion Ha as [|? ? (Hl & Hlw & _) _]; subst. unfold render_attrs. cbn [map concat]. unfold render_attr.
     destruct (a_lead a) as [|w l]; [congruence|]. cbn [app]. apply name_end_ws. inversion Hlw; assumption.
 Qed.
 
-Lemma lex_starttag pre n rest tx : is_name false n -> getz n 0 <> 33 -> name_end false rest ->
+Lemma lex_starttag pre n rest tx : is_name false n -> getz n 0 <> 33 -> name_end false false rest ->
   exists tx', steps (sout pre ([60] ++ n ++ rest) tx) [(TStartTag, Some ([60] ++ n), Some n, None)]
-                    (sin (pre ++ [60] ++ n) rest tx' None).
+                    (sin false (pre ++ [60] ++ n) rest tx' None).
 Proof.
   intros (Hne & Hn) H33 Hend. eexists. destruct n as [|c1 n']; [congruence|]. cbn [app].
   inversion Hn as [|? ? Hc1 Hn']; subst. destruct (name_char_facts false c1 Hc1) as (_ & _ & _ & N47 & N63 & _).
   rewrite getz_cons_0 in H33.
   set (res := (Some (len pre + 1, len pre + 1 + len (c1 :: n')), (len pre, len pre + len ([60] ++ c1 :: n')),
                cur (pre ++ [60] ++ c1 :: n') [] rest) : sres).
-  assert (Hnx : next (sout pre (60 :: c1 :: n' ++ rest) tx) = markup_result TStartTag true (Some res)).
+  assert (Hnx : next (sout pre (60 :: c1 :: n' ++ rest) tx) = markup_result TStartTag true false (Some res)).
   { rewrite next_markup. destruct (Z.eqb_spec c1 47); [congruence|]. destruct (Z.eqb_spec c1 33); [congruence|].
     cbn [option_bind]. destruct (Z.eqb_spec c1 63); [congruence|].
     unfold shift_start_tag. rewrite suffix_cur. change (c1 :: n' ++ rest) with ((c1 :: n') ++ rest).
@@ -854,20 +876,20 @@ Proof.
     cbn [option_bind]. rewrite shift_c_cur. cbn [option_bind fst snd].
     unfold markup_result, res. cbn [option_bind fst snd]. rewrite !mark_cur, !len_app. change (len [60]) with 1.
     replace (len pre + (1 + len (c1 :: n'))) with (len pre + 1 + len (c1 :: n')) by lia. reflexivity. }
-  unfold sin. eapply (steps_markup pre _ tx TStartTag true res); [exact Hnx|discriminate|reflexivity| |].
+  unfold sin. eapply (steps_markup pre _ tx TStartTag true false res); [exact Hnx|discriminate|reflexivity| |].
   - unfold res. cbn [fst snd]. apply obs_cur.
   - unfold res. cbn [fst snd].
     apply (obs_cur_in2 pre [60] (c1 :: n') rest); change (len [60]) with 1; lia.
 Qed.
 
-Lemma lex_pitarget pre n rest tx : is_name false n -> name_end false rest ->
+Lemma lex_pitarget pre n rest tx : is_name false n -> name_end true false rest ->
   exists tx', steps (sout pre ([60; 63] ++ n ++ rest) tx) [(TStartTagPI, Some ([60; 63] ++ n), Some n, None)]
-                    (sin (pre ++ [60; 63] ++ n) rest tx' None).
+                    (sin true (pre ++ [60; 63] ++ n) rest tx' None).
 Proof.
   intros (Hne & Hn) Hend. eexists. cbn [app].
   set (res := (Some (len pre + 2, len pre + 2 + len n), (len pre, len pre + len ([60; 63] ++ n)),
                cur (pre ++ [60; 63] ++ n) [] rest) : sres).
-  assert (Hnx : next (sout pre (60 :: 63 :: n ++ rest) tx) = markup_result TStartTagPI true (Some res)).
+  assert (Hnx : next (sout pre (60 :: 63 :: n ++ rest) tx) = markup_result TStartTagPI true true (Some res)).
   { rewrite next_markup. change (63 =? 47) with false. change (63 =? 33) with false. change (63 =? 63) with true.
     cbn [option_bind]. cbv iota.
     unfold shift_start_tag. rewrite suffix_cur.
@@ -876,7 +898,7 @@ Proof.
     cbn [option_bind]. rewrite shift_c_cur. cbn [option_bind fst snd].
     unfold markup_result, res. cbn [option_bind fst snd]. rewrite !mark_cur, !len_app. change (len [60; 63]) with 2.
     replace (len pre + (2 + len n)) with (len pre + 2 + len n) by lia. reflexivity. }
-  unfold sin. eapply (steps_markup pre _ tx TStartTagPI true res); [exact Hnx|discriminate|reflexivity| |].
+  unfold sin. eapply (steps_markup pre _ tx TStartTagPI true true res); [exact Hnx|discriminate|reflexivity| |].
   - unfold res. cbn [fst snd]. apply obs_cur.
   - unfold res. cbn [fst snd].
     apply (obs_cur_in2 pre [60; 63] n rest); change (len [60; 63]) with 2; lia.
@@ -889,37 +911,57 @@ Proof.
   rewrite app_assoc, <- len_app. apply skipz_app_exact.
 Qed.
 
-Lemma quoted_value_cur pre tk val q r : Forall (fun c => c <> q /\ c <> 0) val -> q <> 0 ->
-  quoted_value q (cur pre tk (val ++ q :: r)) = Some (cur pre ((tk ++ map ws2sp val) ++ [q]) r).
+Lemma scan_quoted_app pi q val r : Forall (fun c => c <> q /\ c <> 0) val -> q <> 62 -> (pi = true -> no_pi_end val) ->
+  scan_quoted pi q (val ++ q :: r) = Some (len val).
 Proof.
-  intros Hv Hq. unfold quoted_value. rewrite suffix_cur.
-  rewrite (scan_while_app (until q) val q r) by (try apply forall_until; try assumption; unfold until; lia).
-  cbn [option_bind].
-  assert (E : mkLx (norm_range (lbuf (cur pre tk (val ++ q :: r))) (lpos (cur pre tk (val ++ q :: r)))
-                               (lpos (cur pre tk (val ++ q :: r)) + len val))
-                   (lpos (cur pre tk (val ++ q :: r)) + len val) (lstart (cur pre tk (val ++ q :: r)))
-              = cur pre (tk ++ map ws2sp val) (q :: r)).
-  { unfold cur. cbn [lbuf lpos lstart]. f_equal.
-    - replace (pre ++ tk ++ val ++ q :: r) with ((pre ++ tk) ++ val ++ q :: r) by (rewrite <- app_assoc; reflexivity).
-      rewrite <- len_app. rewrite norm_range_mid. rewrite <- !app_assoc. reflexivity.
-    - rewrite len_app, len_map. lia. }
-  rewrite E. rewrite pk_cur0. cbn [option_bind]. rewrite Z.eqb_refl. rewrite mv_cur1. reflexivity.
+  intros Hv Hq. induction Hv as [|x v (Hx1 & Hx2) Hv IH]; intros Hn; cbn [app]; rewrite scan_quoted_step.
+  - rewrite Z.eqb_refl. reflexivity.
+  - destruct (Z.eqb_spec x q); [congruence|]. destruct (Z.eqb_spec x 0); [congruence|].
+    assert (Ht : (if pi then tag_end true x (v ++ q :: r) else Some false) = Some false).
+    { destruct pi; [|reflexivity]. rewrite tag_end_eq by (left; destruct v; discriminate).
+      unfold tag_end_b. destruct (Z.eqb_spec x 63) as [->|]; [|reflexivity]. cbn [andb]. f_equal.
+      specialize (Hn eq_refl). destruct v as [|y v']; cbn [app]; rewrite getz_cons_0.
+      - lia.
+      - destruct Hn as (Hn & _). destruct (Z.eqb_spec y 62); [exfalso; apply Hn; auto|reflexivity]. }
+    rewrite Ht. cbn [option_bind orb]. rewrite IH.
+    + cbn [option_bind]. rewrite len_cons. reflexivity.
+    + intros Hp. specialize (Hn Hp). destruct v; [exact I|]. destruct Hn as (_ & Hn). exact Hn.
+Qed.
+
+Lemma quoted_norm_cur pre tk val X :
+  mkLx (norm_range (lbuf (cur pre tk (val ++ X))) (lpos (cur pre tk (val ++ X))) (lpos (cur pre tk (val ++ X)) + len val))
+       (lpos (cur pre tk (val ++ X)) + len val) (lstart (cur pre tk (val ++ X)))
+  = cur pre (tk ++ map ws2sp val) X.
+Proof.
+  unfold cur. cbn [lbuf lpos lstart]. f_equal.
+  - replace (pre ++ tk ++ val ++ X) with ((pre ++ tk) ++ val ++ X) by (rewrite <- app_assoc; reflexivity).
+    rewrite <- len_app. rewrite norm_range_mid. rewrite <- !app_assoc. reflexivity.
+  - rewrite len_app, len_map. lia.
+Qed.
+
+Lemma quoted_value_cur pi pre tk val q r : Forall (fun c => c <> q /\ c <> 0) val -> q = 34 \/ q = 39 ->
+  (pi = true -> no_pi_end val) ->
+  quoted_value pi q (cur pre tk (val ++ q :: r)) = Some (cur pre ((tk ++ map ws2sp val) ++ [q]) r).
+Proof.
+  intros Hv Hq Hn. unfold quoted_value. rewrite suffix_cur.
+  rewrite scan_quoted_app by (try assumption; lia). cbn [option_bind].
+  rewrite quoted_norm_cur. rewrite pk_cur0. cbn [option_bind]. rewrite Z.eqb_refl. rewrite mv_cur1. reflexivity.
 Qed.
 
 Lemma is_ws_false_of c : c = 61 \/ c = 34 \/ c = 39 \/ c = 62 \/ c = 47 \/ c = 63 -> is_ws c = false.
 Proof. unfold is_ws. lia. Qed.
 
-Lemma name_end_eq ws1 rest : all_ws ws1 -> name_end true (ws1 ++ 61 :: rest).
+Lemma name_end_eq pi ws1 rest : all_ws ws1 -> name_end pi true (ws1 ++ 61 :: rest).
 Proof.
   intros Hw. destruct ws1 as [|w ws1]; cbn [app].
   - exists 61, rest. split; [reflexivity|]. split; [reflexivity|]. intros [H|H]; discriminate.
   - apply name_end_ws. inversion Hw; assumption.
 Qed.
 
-Lemma lex_attr pre a r tx ax : attr_ok a ->
-  exists tx' ax', steps (sin pre (render_attr a ++ r) tx ax) [expect_attr a] (sin (pre ++ norm_attr a) r tx' ax').
+Lemma lex_attr pi pre a r tx ax : attr_ok a -> (pi = true -> no_pi_end (a_val a)) ->
+  exists tx' ax', steps (sin pi pre (render_attr a ++ r) tx ax) [expect_attr a] (sin pi (pre ++ norm_attr a) r tx' ax').
 Proof.
-  intros (Hl & Hlw & (Hnne & Hn) & Hw1 & Hw2 & Hq & Hv).
+  intros (Hl & Hlw & (Hnne & Hn) & Hw1 & Hw2 & Hq & Hv) Hnp.
   destruct a as [lead name ws1 ws2 q val]. cbn [a_lead a_name a_ws1 a_ws2 a_q a_val] in *.
   unfold render_attr, expect_attr, norm_attr, attr_value. cbn [a_lead a_name a_ws1 a_ws2 a_q a_val].
   destruct name as [|c n']; [congruence|].
@@ -929,18 +971,19 @@ Proof.
   set (name := c :: n') in *.
   set (tk4 := (((lead ++ name) ++ ws1) ++ [61]) ++ ws2).
   set (tk6 := ((tk4 ++ [q]) ++ map ws2sp val) ++ [q]).
-  assert (Hnx : next (sin pre (lead ++ name ++ ws1 ++ [61] ++ ws2 ++ [q] ++ val ++ [q] ++ r) tx ax) =
+  assert (Hnx : next (sin pi pre (lead ++ name ++ ws1 ++ [61] ++ ws2 ++ [q] ++ val ++ [q] ++ r) tx ax) =
                 Some (TAttribute, Some (len pre, len pre + len tk6),
-                      mkX (cur (pre ++ tk6) [] r) false true
+                      mkX (cur (pre ++ tk6) [] r) false true pi
                           (Some (len pre + len lead, len pre + len (lead ++ name)))
                           (Some (len pre + len tk4, len pre + len tk6)))).
-  { unfold sin, next. cbn [xin xr xerr xattr xtext]. rewrite suffix_cur.
+  { unfold sin, next. cbn [xin xpi xr xerr xattr xtext]. rewrite suffix_cur.
     unfold name at 1. cbn [app].
     rewrite (scan_while_app is_ws lead c _ Hlw Cws). cbn [option_bind].
     rewrite mv_cur by reflexivity. unfold name at 1 2 3 4 5 6. cbn [app]. rewrite pk_cur0. cbn [option_bind].
     destruct (Z.eqb_spec c 0); [congruence|]. destruct (Z.eqb_spec c 62); [congruence|].
     destruct (Z.eqb_spec c 47); [congruence|]. destruct (Z.eqb_spec c 63); [congruence|].
-    cbn [orb option_bind].
+    cbn [orb]. replace (if pi then Some true else Some true) with (Some true) by (destruct pi; reflexivity).
+    cbn [option_bind].
     (* shiftAttribute *)
     unfold shift_attribute. rewrite suffix_cur.
     change (c :: n' ++ ws1 ++ 61 :: ws2 ++ q :: val ++ q :: r) with (name ++ ws1 ++ 61 :: ws2 ++ q :: val ++ q :: r).
@@ -981,16 +1024,18 @@ Proof.
   unfold sin. rewrite <- !app_assoc. exact S.
 Qed.
 
-Lemma lex_closer pre ws k r tx ax : all_ws ws -> is_closer_ty k ->
-  steps (sin pre (ws ++ closer_bytes k ++ r) tx ax) [(k, Some (closer_bytes k), None, None)]
+Lemma lex_closer pi pre ws k r tx ax : all_ws ws -> is_closer_ty k -> (pi = true -> k = TStartTagClosePI) ->
+  steps (sin pi pre (ws ++ closer_bytes k ++ r) tx ax) [(k, Some (closer_bytes k), None, None)]
         (sout (pre ++ ws ++ closer_bytes k) r None).
 Proof.
-  intros Hw Hk.
-  assert (Hnx : next (sin pre (ws ++ closer_bytes k ++ r) tx ax) =
+  intros Hw Hk Hpi.
+  assert (Hnx : next (sin pi pre (ws ++ closer_bytes k ++ r) tx ax) =
                 Some (k, Some (len (pre ++ ws), len (pre ++ ws) + len (closer_bytes k)),
-                      mkX (cur ((pre ++ ws) ++ closer_bytes k) [] r) false false None None)).
-  { unfold sin, next. cbn [xin xr xerr xattr xtext]. rewrite suffix_cur.
-    destruct Hk as [->|[->| ->]]; cbn [closer_bytes app].
+                      mkX (cur ((pre ++ ws) ++ closer_bytes k) [] r) false false false None None)).
+  { unfold sin, next. cbn [xin xpi xr xerr xattr xtext]. rewrite suffix_cur.
+    assert (Hk' : pi = false \/ k = TStartTagClosePI) by (destruct pi; [right; apply Hpi; reflexivity|left; reflexivity]).
+    destruct Hk as [->|[->| ->]]; cbn [closer_bytes app];
+      [destruct Hk' as [-> |?]; [|discriminate] | destruct Hk' as [-> |?]; [|discriminate] | ].
     - rewrite (scan_while_app is_ws ws 62 r Hw eq_refl). cbn [option_bind].
       rewrite mv_cur by reflexivity. cbn [app]. rewrite pk_cur0. cbn [option_bind].
       change (62 =? 0) with false. change (62 =? 62) with true. cbn [option_bind]. cbv iota.
@@ -1005,7 +1050,9 @@ Proof.
       rewrite mv_cur by reflexivity. cbn [app]. rewrite pk_cur0. cbn [option_bind].
       change (63 =? 0) with false. change (63 =? 62) with false. change (63 =? 47) with false.
       change (63 =? 63) with true. cbn [orb]. cbv iota.
-      rewrite pk_cur1. cbn [option_bind]. change (62 =? 62) with true. cbn [negb]. cbv iota.
+      rewrite pk_cur1. cbn [option_bind]. change (62 =? 62) with true. cbn [negb].
+      replace (if pi then Some false else Some false) with (Some false) by (destruct pi; reflexivity).
+      cbn [option_bind]. cbv iota.
       rewrite skip_cur. rewrite mv_cur2. cbn [app]. rewrite shift_c_cur. reflexivity. }
   assert (Hty : k <> TError) by (destruct Hk as [->|[->| ->]]; discriminate).
   pose proof (steps_one _ _ _ _ Hnx Hty) as S.
@@ -1014,79 +1061,87 @@ Proof.
 Qed.
 
 (* ---- the general pieces inside a tag --------------------------------------------------------------------------- *)
-Lemma scan_name_cons eq c t : t <> [] ->
-  scan_name eq (c :: t) = if name_stop eq c (getz t 0) then Some 0 else n <- scan_name eq t ;; Some (1 + n).
-Proof.
-  intros Ht. rewrite scan_name_step. unfold closer_ahead, name_stop. destruct t as [|c1 t']; [congruence|].
-  rewrite getz_cons_0. destruct ((c =? 47) || (c =? 63)); cbn [option_bind andb]; reflexivity.
-Qed.
+Lemma scan_name_cons pi eq c t : t <> [] ->
+  scan_name pi eq (c :: t) = if name_stop pi eq c (getz t 0) then Some 0 else n <- scan_name pi eq t ;; Some (1 + n).
+Proof. intros Ht. apply scan_name_cons'. left. exact Ht. Qed.
 
 Lemma getz_app_hd (a b : list Z) : a <> [] -> getz (a ++ b) 0 = getz a 0.
 Proof. intros H. destruct a; [congruence|]. reflexivity. Qed.
 
-Lemma scan_name_run eq n : forall Y, Y <> [] -> name_run eq n (getz Y 0) -> name_end eq Y ->
-  scan_name eq (n ++ Y) = Some (len n).
+Lemma scan_name_run pi eq n : forall Y, Y <> [] -> name_run pi eq n (getz Y 0) -> name_end pi eq Y ->
+  scan_name pi eq (n ++ Y) = Some (len n).
 Proof.
   induction n as [|c n IH]; intros Y HY Hr He.
-  - destruct He as (c & t & -> & H1 & H2). apply (scan_name_app eq [] c t); [constructor|exact H1|exact H2].
+  - destruct He as (c & t & -> & H1 & H2). apply (scan_name_app pi eq [] c t); [constructor|exact H1|exact H2].
   - cbn [app]. destruct Hr as (Hc & Hr). rewrite scan_name_cons by (destruct n; [exact HY|discriminate]).
     assert (E : getz (n ++ Y) 0 = match n with [] => getz Y 0 | c1 :: _ => c1 end) by (destruct n; reflexivity).
     rewrite E, Hc. rewrite IH by assumption. cbn [option_bind]. rewrite len_cons. reflexivity.
 Qed.
 
-Lemma name_stop_indep eq c x y : c <> 47 -> c <> 63 -> name_stop eq c x = name_stop eq c y.
-Proof. intros H1 H2. unfold name_stop. destruct (Z.eqb_spec c 47); [congruence|]. destruct (Z.eqb_spec c 63); [congruence|]. reflexivity. Qed.
+Lemma name_stop_indep pi eq c x y : c <> 47 -> c <> 63 -> name_stop pi eq c x = name_stop pi eq c y.
+Proof.
+  intros H1 H2. unfold name_stop, tag_end_b. destruct (Z.eqb_spec c 47); [congruence|]. destruct (Z.eqb_spec c 63); [congruence|].
+  destruct pi; reflexivity.
+Qed.
 
-Lemma name_end_app eq rest r : name_end eq rest -> name_end eq (rest ++ r).
+Lemma name_end_app pi eq rest r : name_end pi eq rest -> name_end pi eq (rest ++ r).
 Proof.
   intros (c & t & -> & H1 & H2). exists c, (t ++ r). split; [reflexivity|]. split.
   - destruct (Z.eq_dec c 47) as [E|E]; [|destruct (Z.eq_dec c 63) as [E'|E']].
     + rewrite getz_app_hd by (apply H2; auto). exact H1.
     + rewrite getz_app_hd by (apply H2; auto). exact H1.
-    + rewrite (name_stop_indep eq c _ (getz t 0)) by assumption. exact H1.
+    + rewrite (name_stop_indep pi eq c _ (getz t 0)) by assumption. exact H1.
   - intros Hc Hn. apply app_eq_nil in Hn. destruct Hn as (Hn & _). exact (H2 Hc Hn).
 Qed.
 
-Lemma name_end_nonnil eq l : name_end eq l -> l <> [].
+Lemma name_end_nonnil pi eq l : name_end pi eq l -> l <> [].
 Proof. intros (c & t & -> & _). discriminate. Qed.
 
 (* the dispatch of Next inside a tag on a byte that starts an attribute *)
-Lemma next_intag_attr pre lead c X' tx ax : Forall (fun x => is_ws x = true) lead -> is_ws c = false ->
-  c <> 0 -> c <> 62 -> ((c = 47 \/ c = 63) -> X' <> [] /\ getz X' 0 <> 62) ->
-  next (sin pre (lead ++ c :: X') tx ax) =
-  (r <- shift_attribute (cur pre lead (c :: X')) ;;
-   Some (TAttribute, Some (snd (fst r)), mkX (snd r) false true (fst (fst (fst r))) (snd (fst (fst r))))).
+Lemma next_intag_attr pi pre lead c X' tx ax : Forall (fun x => is_ws x = true) lead -> is_ws c = false ->
+  c <> 0 -> tag_end_b pi c (getz X' 0) = false -> ((c = 47 \/ c = 63) -> X' <> []) ->
+  next (sin pi pre (lead ++ c :: X') tx ax) =
+  (r <- shift_attribute pi (cur pre lead (c :: X')) ;;
+   Some (TAttribute, Some (snd (fst r)), mkX (snd r) false true pi (fst (fst (fst r))) (snd (fst (fst r))))).
 Proof.
-  intros Hl Hws H0 H62 Hc. unfold sin, next. cbn [xin xr xerr xattr xtext]. rewrite suffix_cur.
+  intros Hl Hws H0 Hte Hc. unfold sin, next. cbn [xin xpi xr xerr xattr xtext]. rewrite suffix_cur.
   rewrite (scan_while_app is_ws lead c X' Hl Hws). cbn [option_bind]. rewrite mv_cur by reflexivity. cbn [app].
-  rewrite pk_cur0. cbn [option_bind]. destruct (Z.eqb_spec c 0); [congruence|]. destruct (Z.eqb_spec c 62); [congruence|].
-  destruct ((c =? 47) || (c =? 63)) eqn:E; [|reflexivity].
-  destruct (Hc ltac:(lia)) as (Hne & H1). destruct X' as [|c1 X'']; [congruence|]. rewrite getz_cons_0 in H1.
-  rewrite pk_cur1. cbn [option_bind]. destruct (Z.eqb_spec c1 62); [congruence|]. reflexivity.
+  rewrite pk_cur0. cbn [option_bind]. destruct (Z.eqb_spec c 0); [congruence|].
+  unfold tag_end_b in Hte. destruct pi.
+  - destruct (Z.eqb_spec c 63) as [E|E]; [|reflexivity].
+    destruct X' as [|c1 X'']; [exfalso; apply Hc; [auto|reflexivity]|]. rewrite getz_cons_0 in Hte.
+    rewrite pk_cur1. cbn [option_bind andb] in *. rewrite Hte. reflexivity.
+  - destruct (Z.eqb_spec c 62) as [E|E]; [discriminate|]. cbn [orb] in Hte.
+    destruct ((c =? 47) || (c =? 63)) eqn:E2; [|reflexivity].
+    destruct X' as [|c1 X'']; [exfalso; apply Hc; [lia|reflexivity]|]. rewrite getz_cons_0 in Hte.
+    rewrite pk_cur1. cbn [option_bind andb] in *. rewrite Hte. reflexivity.
 Qed.
 
-Lemma name_run_head eq c n nxt : name_run eq (c :: n) nxt ->
-  name_stop eq c (match n with [] => nxt | c1 :: _ => c1 end) = false.
+Lemma name_run_head pi eq c n nxt : name_run pi eq (c :: n) nxt ->
+  name_stop pi eq c (match n with [] => nxt | c1 :: _ => c1 end) = false.
 Proof. intros (H & _). exact H. Qed.
 
 (* entry facts for a piece whose first byte after the whitespace is c, followed by c1 *)
-Lemma stop_false_facts c c1 : name_stop true c c1 = false ->
-  is_ws c = false /\ c <> 0 /\ c <> 62 /\ c <> 61 /\ ((c = 47 \/ c = 63) -> c1 <> 62).
-Proof. unfold name_stop, is_ws. intros H. repeat split; try lia. Qed.
+Lemma stop_false_facts pi c c1 : name_stop pi true c c1 = false ->
+  is_ws c = false /\ c <> 0 /\ c <> 61 /\ tag_end_b pi c c1 = false.
+Proof.
+  unfold name_stop, is_ws. intros H. destruct (tag_end_b pi c c1); [rewrite !orb_true_r in H; cbn in H; discriminate|].
+  repeat split; lia.
+Qed.
 
 Lemma ws_false_61 : is_ws 61 = false. Proof. reflexivity. Qed.
 
-Lemma all_ws_61 w1 rest : Forall (fun c => is_ws c = true) w1 -> name_end true (w1 ++ 61 :: rest).
+Lemma all_ws_61 pi w1 rest : Forall (fun c => is_ws c = true) w1 -> name_end pi true (w1 ++ 61 :: rest).
 Proof. apply name_end_eq. Qed.
 
 (* name = value, value quoted, general name *)
-Lemma lex_gattr_quo pre lead name w1 w2 q val R tx ax :
-  gattr_ok (mkG lead name (VQuo w1 w2 q val)) R ->
-  exists tx' ax', steps (sin pre (render_gattr (mkG lead name (VQuo w1 w2 q val)) ++ R) tx ax)
+Lemma lex_gattr_quo pi pre lead name w1 w2 q val R tx ax :
+  gattr_ok pi (mkG lead name (VQuo w1 w2 q val)) R ->
+  exists tx' ax', steps (sin pi pre (render_gattr (mkG lead name (VQuo w1 w2 q val)) ++ R) tx ax)
                         [expect_gattr (mkG lead name (VQuo w1 w2 q val))]
-                        (sin (pre ++ norm_gattr (mkG lead name (VQuo w1 w2 q val))) R tx' ax').
+                        (sin pi (pre ++ norm_gattr (mkG lead name (VQuo w1 w2 q val))) R tx' ax').
 Proof.
-  intros (Hlw & Hw1 & Hw2 & Hne & Hn & Hq & Hv). cbn [g_lead g_name g_val] in *.
+  intros (Hlw & Hw1 & Hw2 & Hne & Hn & Hq & Hv & Hnp). cbn [g_lead g_name g_val] in *.
   unfold render_gattr, expect_gattr, norm_gattr. cbn [g_lead g_name g_val render_gval norm_gval gval_obs].
   assert (Hq0 : q <> 0) by lia.
   set (tk4 := (((lead ++ name) ++ w1) ++ [61]) ++ w2).
@@ -1094,21 +1149,21 @@ Proof.
   set (Y := w1 ++ 61 :: w2 ++ q :: val ++ q :: R).
   assert (HY : Y <> []) by (unfold Y; destruct w1; discriminate).
   assert (EY : getz Y 0 = getz (w1 ++ [61]) 0) by (unfold Y; destruct w1; reflexivity).
-  assert (Hdisp : exists c X', name ++ Y = c :: X' /\ is_ws c = false /\ c <> 0 /\ c <> 62 /\
-                   ((c = 47 \/ c = 63) -> X' <> [] /\ getz X' 0 <> 62)).
+  assert (Hdisp : exists c X', name ++ Y = c :: X' /\ is_ws c = false /\ c <> 0 /\
+                   tag_end_b pi c (getz X' 0) = false /\ ((c = 47 \/ c = 63) -> X' <> [])).
   { destruct name as [|c n'].
     - pose proof (Hne eq_refl) as Ew. exists 61, (w2 ++ q :: val ++ q :: R). unfold Y. rewrite Ew. cbn [app].
-      split; [reflexivity|]. split; [reflexivity|]. split; [lia|]. split; [lia|]. intros [H|H]; discriminate.
-    - exists c, (n' ++ Y). split; [reflexivity|]. pose proof (name_run_head _ _ _ _ Hn) as Hs.
+      split; [reflexivity|]. split; [reflexivity|]. split; [lia|]. split; [destruct pi; reflexivity|]. intros [H|H]; discriminate.
+    - exists c, (n' ++ Y). split; [reflexivity|]. pose proof (name_run_head _ _ _ _ _ Hn) as Hs.
       assert (E : match n' with [] => getz (w1 ++ [61]) 0 | c1 :: _ => c1 end = getz (n' ++ Y) 0)
         by (destruct n'; [cbn [app]; rewrite EY|]; reflexivity).
-      rewrite E in Hs. destruct (stop_false_facts _ _ Hs) as (F1 & F2 & F3 & F4 & F5).
-      split; [exact F1|]. split; [exact F2|]. split; [exact F3|]. intros Hc. split; [|apply F5; exact Hc].
+      rewrite E in Hs. destruct (stop_false_facts _ _ _ Hs) as (F1 & F2 & F3 & F4).
+      split; [exact F1|]. split; [exact F2|]. split; [exact F4|]. intros Hc.
       destruct n'; [exact HY|discriminate]. }
   destruct Hdisp as (c & X' & EX & D1 & D2 & D3 & D4).
-  assert (Hnx : next (sin pre (lead ++ name ++ Y) tx ax) =
+  assert (Hnx : next (sin pi pre (lead ++ name ++ Y) tx ax) =
                 Some (TAttribute, Some (len pre, len pre + len tk6),
-                      mkX (cur (pre ++ tk6) [] R) false true
+                      mkX (cur (pre ++ tk6) [] R) false true pi
                           (Some (len pre + len lead, len pre + len (lead ++ name)))
                           (Some (len pre + len tk4, len pre + len tk6)))).
   { rewrite EX. rewrite next_intag_attr by assumption. rewrite <- EX.
@@ -1150,16 +1205,111 @@ Proof.
   unfold sin, Y in *. rewrite <- !app_assoc. cbn [app] in *. exact S.
 Qed.
 
+(* a quoted value cut by the ?> of the processing instruction *)
+Lemma scan_quoted_cut q val r : Forall (fun c => c <> q /\ c <> 0) val -> q = 34 \/ q = 39 -> no_pi_end val ->
+  scan_quoted true q (val ++ 63 :: 62 :: r) = Some (len val).
+Proof.
+  intros Hv Hq. induction Hv as [|x v (Hx1 & Hx2) Hv IH]; intros Hn; cbn [app]; rewrite scan_quoted_step.
+  - destruct (Z.eqb_spec 63 q); [lia|]. reflexivity.
+  - destruct (Z.eqb_spec x q); [congruence|]. destruct (Z.eqb_spec x 0); [congruence|].
+    assert (Ht : tag_end true x (v ++ 63 :: 62 :: r) = Some false).
+    { rewrite tag_end_eq by (left; destruct v; discriminate).
+      unfold tag_end_b. destruct (Z.eqb_spec x 63) as [->|]; [|reflexivity]. cbn [andb]. f_equal.
+      destruct v as [|y v']; cbn [app]; rewrite getz_cons_0; [reflexivity|].
+      destruct Hn as (Hn & _). destruct (Z.eqb_spec y 62); [exfalso; apply Hn; auto|reflexivity]. }
+    rewrite Ht. cbn [option_bind orb]. rewrite IH.
+    + cbn [option_bind]. rewrite len_cons. reflexivity.
+    + destruct v; [exact I|]. destruct Hn as (_ & Hn). exact Hn.
+Qed.
+
+Lemma quoted_value_cut pre tk val q r : Forall (fun c => c <> q /\ c <> 0) val -> q = 34 \/ q = 39 -> no_pi_end val ->
+  quoted_value true q (cur pre tk (val ++ 63 :: 62 :: r)) = Some (cur pre (tk ++ map ws2sp val) (63 :: 62 :: r)).
+Proof.
+  intros Hv Hq Hn. unfold quoted_value. rewrite suffix_cur.
+  rewrite scan_quoted_cut by assumption. cbn [option_bind].
+  rewrite quoted_norm_cur. rewrite pk_cur0. cbn [option_bind]. destruct (Z.eqb_spec 63 q); [lia|]. reflexivity.
+Qed.
+
+Lemma lex_gattr_cut pre lead name w1 w2 q val R tx ax :
+  gattr_ok true (mkG lead name (VQuoCut w1 w2 q val)) R ->
+  exists tx' ax', steps (sin true pre (render_gattr (mkG lead name (VQuoCut w1 w2 q val)) ++ R) tx ax)
+                        [expect_gattr (mkG lead name (VQuoCut w1 w2 q val))]
+                        (sin true (pre ++ norm_gattr (mkG lead name (VQuoCut w1 w2 q val))) R tx' ax').
+Proof.
+  intros (Hlw & Hw1 & Hw2 & Hne & Hn & Hq & Hv & Hnp & Hpi & (t & ER)). cbn [g_lead g_name g_val] in *. subst R.
+  unfold render_gattr, expect_gattr, norm_gattr. cbn [g_lead g_name g_val render_gval norm_gval gval_obs].
+  assert (Hq0 : q <> 0) by lia.
+  set (tk4 := (((lead ++ name) ++ w1) ++ [61]) ++ w2).
+  set (tk6 := (tk4 ++ [q]) ++ map ws2sp val).
+  set (R := 63 :: 62 :: t). set (Y := w1 ++ 61 :: w2 ++ q :: val ++ R).
+  assert (HY : Y <> []) by (unfold Y; destruct w1; discriminate).
+  assert (EY : getz Y 0 = getz (w1 ++ [61]) 0) by (unfold Y; destruct w1; reflexivity).
+  assert (Hdisp : exists c X', name ++ Y = c :: X' /\ is_ws c = false /\ c <> 0 /\
+                   tag_end_b true c (getz X' 0) = false /\ ((c = 47 \/ c = 63) -> X' <> [])).
+  { destruct name as [|c n'].
+    - pose proof (Hne eq_refl) as Ew. exists 61, (w2 ++ q :: val ++ R). unfold Y. rewrite Ew. cbn [app].
+      split; [reflexivity|]. split; [reflexivity|]. split; [lia|]. split; [reflexivity|]. intros [H|H]; discriminate.
+    - exists c, (n' ++ Y). split; [reflexivity|]. pose proof (name_run_head _ _ _ _ _ Hn) as Hs.
+      assert (E : match n' with [] => getz (w1 ++ [61]) 0 | c1 :: _ => c1 end = getz (n' ++ Y) 0)
+        by (destruct n'; [cbn [app]; rewrite EY|]; reflexivity).
+      rewrite E in Hs. destruct (stop_false_facts _ _ _ Hs) as (F1 & F2 & F3 & F4).
+      split; [exact F1|]. split; [exact F2|]. split; [exact F4|]. intros Hc.
+      destruct n'; [exact HY|discriminate]. }
+  destruct Hdisp as (c & X' & EX & D1 & D2 & D3 & D4).
+  assert (Hnx : next (sin true pre (lead ++ name ++ Y) tx ax) =
+                Some (TAttribute, Some (len pre, len pre + len tk6),
+                      mkX (cur (pre ++ tk6) [] R) false true true
+                          (Some (len pre + len lead, len pre + len (lead ++ name)))
+                          (Some (len pre + len tk4, len pre + len tk6)))).
+  { rewrite EX. rewrite next_intag_attr by assumption. rewrite <- EX.
+    unfold shift_attribute. rewrite suffix_cur.
+    rewrite scan_name_run by (first [assumption | (rewrite EY; exact Hn) | (apply name_end_eq; exact Hw1)]).
+    cbn [option_bind]. rewrite mv_cur by reflexivity. rewrite suffix_cur. unfold Y.
+    rewrite (scan_while_app is_ws w1 61 _ Hw1 eq_refl). cbn [option_bind]. rewrite mv_cur by reflexivity.
+    rewrite pk_cur0. cbn [option_bind]. change (61 =? 61) with true. cbv iota.
+    rewrite mv_cur1. rewrite suffix_cur.
+    rewrite (scan_while_app is_ws w2 q _ Hw2) by (apply is_ws_false_of; lia).
+    cbn [option_bind]. rewrite mv_cur by reflexivity. fold tk4. rewrite pk_cur0. cbn [option_bind].
+    replace ((q =? 34) || (q =? 39)) with true by lia.
+    rewrite mv_cur1. unfold R. rewrite quoted_value_cut by assumption. cbn [option_bind]. fold tk6. fold R.
+    rewrite !mark_cur.
+    assert (L46 : len tk4 <= len tk6).
+    { unfold tk6. rewrite !len_app. pose proof (len_nonneg (map ws2sp val)). change (len [q]) with 1. lia. }
+    assert (L6 : len (lead ++ name) <= len tk6).
+    { pose proof (len_nonneg w1). pose proof (len_nonneg w2). unfold tk4 in L46. rewrite !len_app in L46.
+      rewrite len_app. change (len [61]) with 1 in L46. lia. }
+    rewrite lex_sub_cur by (pose proof (len_nonneg tk4); lia). cbn [option_bind fst snd].
+    rewrite lex_sub_cur by (rewrite ?len_app; pose proof (len_nonneg lead); pose proof (len_nonneg name); try lia;
+                            rewrite len_app in L6; lia).
+    cbn [option_bind]. rewrite shift_c_cur. cbn [option_bind fst snd]. reflexivity. }
+  assert (E6 : tk6 = lead ++ name ++ w1 ++ [61] ++ w2 ++ [q] ++ map ws2sp val).
+  { unfold tk6, tk4. rewrite <- !app_assoc. reflexivity. }
+  assert (E64 : tk6 = tk4 ++ ([q] ++ map ws2sp val)).
+  { unfold tk6. rewrite <- !app_assoc. reflexivity. }
+  do 2 eexists.
+  pose proof (steps_one _ _ _ _ Hnx ltac:(discriminate)) as S.
+  unfold etok_of in S. cbn [xr xtext xattr] in S.
+  rewrite obs_cur in S.
+  assert (Ea : obs_sl (lbuf (cur (pre ++ tk6) [] R)) (Some (len pre + len tk4, len pre + len tk6))
+               = Some ([q] ++ map ws2sp val)).
+  { rewrite E64. apply (obs_cur_in2 pre tk4 ([q] ++ map ws2sp val) R); [reflexivity|].
+    rewrite len_app. lia. }
+  rewrite Ea in S. clear Ea. rewrite E6 in S.
+  rewrite (obs_cur_in pre lead name (w1 ++ [61] ++ w2 ++ [q] ++ map ws2sp val) R) in S
+    by (rewrite ?len_app; lia).
+  unfold sin, Y in *. rewrite <- !app_assoc. cbn [app] in *. exact S.
+Qed.
+
 (* name = unquoted value *)
-Lemma lex_gattr_unq pre lead name w1 w2 x R tx ax :
-  gattr_ok (mkG lead name (VUnq w1 w2 x)) R ->
-  exists tx' ax', steps (sin pre (render_gattr (mkG lead name (VUnq w1 w2 x)) ++ R) tx ax)
+Lemma lex_gattr_unq pi pre lead name w1 w2 x R tx ax :
+  gattr_ok pi (mkG lead name (VUnq w1 w2 x)) R ->
+  exists tx' ax', steps (sin pi pre (render_gattr (mkG lead name (VUnq w1 w2 x)) ++ R) tx ax)
                         [expect_gattr (mkG lead name (VUnq w1 w2 x))]
-                        (sin (pre ++ norm_gattr (mkG lead name (VUnq w1 w2 x))) R tx' ax').
+                        (sin pi (pre ++ norm_gattr (mkG lead name (VUnq w1 w2 x))) R tx' ax').
 Proof.
   intros (Hlw & Hw1 & Hw2 & Hne & Hn & Hx & HeR & Dws & D34 & D39). cbn [g_lead g_name g_val] in *.
   unfold render_gattr, expect_gattr, norm_gattr. cbn [g_lead g_name g_val render_gval norm_gval gval_obs].
-  pose proof (name_end_nonnil _ _ HeR) as HR.
+  pose proof (name_end_nonnil _ _ _ HeR) as HR.
   set (tk4 := (((lead ++ name) ++ w1) ++ [61]) ++ w2).
   set (tk6 := tk4 ++ x).
   remember (x ++ R) as Z2 eqn:EZ2. destruct Z2 as [|d Z2']; [symmetry in EZ2; apply app_eq_nil in EZ2; destruct EZ2; congruence|].
@@ -1167,21 +1317,21 @@ Proof.
   set (Y := w1 ++ 61 :: w2 ++ d :: Z2').
   assert (HY : Y <> []) by (unfold Y; destruct w1; discriminate).
   assert (EY : getz Y 0 = getz (w1 ++ [61]) 0) by (unfold Y; destruct w1; reflexivity).
-  assert (Hdisp : exists c X', name ++ Y = c :: X' /\ is_ws c = false /\ c <> 0 /\ c <> 62 /\
-                   ((c = 47 \/ c = 63) -> X' <> [] /\ getz X' 0 <> 62)).
+  assert (Hdisp : exists c X', name ++ Y = c :: X' /\ is_ws c = false /\ c <> 0 /\
+                   tag_end_b pi c (getz X' 0) = false /\ ((c = 47 \/ c = 63) -> X' <> [])).
   { destruct name as [|c n'].
     - pose proof (Hne eq_refl) as Ew. exists 61, (w2 ++ d :: Z2'). unfold Y. rewrite Ew. cbn [app].
-      split; [reflexivity|]. split; [reflexivity|]. split; [lia|]. split; [lia|]. intros [H|H]; discriminate.
-    - exists c, (n' ++ Y). split; [reflexivity|]. pose proof (name_run_head _ _ _ _ Hn) as Hs.
+      split; [reflexivity|]. split; [reflexivity|]. split; [lia|]. split; [destruct pi; reflexivity|]. intros [H|H]; discriminate.
+    - exists c, (n' ++ Y). split; [reflexivity|]. pose proof (name_run_head _ _ _ _ _ Hn) as Hs.
       assert (E : match n' with [] => getz (w1 ++ [61]) 0 | c1 :: _ => c1 end = getz (n' ++ Y) 0)
         by (destruct n'; [cbn [app]; rewrite EY|]; reflexivity).
-      rewrite E in Hs. destruct (stop_false_facts _ _ Hs) as (F1 & F2 & F3 & F4 & F5).
-      split; [exact F1|]. split; [exact F2|]. split; [exact F3|]. intros Hc. split; [|apply F5; exact Hc].
+      rewrite E in Hs. destruct (stop_false_facts _ _ _ Hs) as (F1 & F2 & F3 & F4).
+      split; [exact F1|]. split; [exact F2|]. split; [exact F4|]. intros Hc.
       destruct n'; [exact HY|discriminate]. }
   destruct Hdisp as (c & X' & EX & E1 & E2 & E3 & E4).
-  assert (Hnx : next (sin pre (lead ++ name ++ Y) tx ax) =
+  assert (Hnx : next (sin pi pre (lead ++ name ++ Y) tx ax) =
                 Some (TAttribute, Some (len pre, len pre + len tk6),
-                      mkX (cur (pre ++ tk6) [] R) false true
+                      mkX (cur (pre ++ tk6) [] R) false true pi
                           (Some (len pre + len lead, len pre + len (lead ++ name)))
                           (Some (len pre + len tk4, len pre + len tk6)))).
   { rewrite EX. rewrite next_intag_attr by assumption. rewrite <- EX.
@@ -1219,27 +1369,27 @@ Proof.
 Qed.
 
 (* a name only: the whitespace after it is not part of the token *)
-Lemma lex_gattr_none pre lead name R tx ax :
-  gattr_ok (mkG lead name VNone) R ->
-  exists tx' ax', steps (sin pre (render_gattr (mkG lead name VNone) ++ R) tx ax)
+Lemma lex_gattr_none pi pre lead name R tx ax :
+  gattr_ok pi (mkG lead name VNone) R ->
+  exists tx' ax', steps (sin pi pre (render_gattr (mkG lead name VNone) ++ R) tx ax)
                         [expect_gattr (mkG lead name VNone)]
-                        (sin (pre ++ norm_gattr (mkG lead name VNone)) R tx' ax').
+                        (sin pi (pre ++ norm_gattr (mkG lead name VNone)) R tx' ax').
 Proof.
   intros (Hlw & Hnn & Hn & HeR & (w & c2 & t & ER & Hw & Hc2 & H61)). cbn [g_lead g_name g_val] in *.
   unfold render_gattr, expect_gattr, norm_gattr. cbn [g_lead g_name g_val render_gval norm_gval gval_obs].
   rewrite !app_nil_r.
-  pose proof (name_end_nonnil _ _ HeR) as HR.
+  pose proof (name_end_nonnil _ _ _ HeR) as HR.
   destruct name as [|c n']; [congruence|].
-  pose proof (name_run_head _ _ _ _ Hn) as Hs.
+  pose proof (name_run_head _ _ _ _ _ Hn) as Hs.
   assert (E : match n' with [] => getz R 0 | c1 :: _ => c1 end = getz (n' ++ R) 0) by (destruct n'; reflexivity).
-  rewrite E in Hs. destruct (stop_false_facts _ _ Hs) as (F1 & F2 & F3 & F4 & F5).
+  rewrite E in Hs. destruct (stop_false_facts _ _ _ Hs) as (F1 & F2 & F3 & F4).
   set (name := c :: n') in *.
-  assert (Hnx : next (sin pre (lead ++ name ++ R) tx ax) =
+  assert (Hnx : next (sin pi pre (lead ++ name ++ R) tx ax) =
                 Some (TAttribute, Some (len pre, len pre + len (lead ++ name)),
-                      mkX (cur (pre ++ lead ++ name) [] R) false true
+                      mkX (cur (pre ++ lead ++ name) [] R) false true pi
                           (Some (len pre + len lead, len pre + len (lead ++ name))) None)).
   { unfold name at 1. cbn [app]. rewrite next_intag_attr; try assumption.
-    2:{ intros Hc. split; [destruct n'; [exact HR|discriminate]|apply F5; exact Hc]. }
+    2:{ intros Hc. destruct n'; [exact HR|discriminate]. }
     change (c :: n' ++ R) with (name ++ R).
     unfold shift_attribute. rewrite suffix_cur.
     rewrite scan_name_run by assumption. cbn [option_bind]. rewrite mv_cur by reflexivity. rewrite suffix_cur.
@@ -1259,10 +1409,12 @@ Proof.
   rewrite E1, E2 in S. unfold sin. rewrite <- !app_assoc. exact S.
 Qed.
 
-Lemma lex_gattr pre a R tx ax : gattr_ok a R ->
-  exists tx' ax', steps (sin pre (render_gattr a ++ R) tx ax) [expect_gattr a] (sin (pre ++ norm_gattr a) R tx' ax').
+Lemma lex_gattr pi pre a R tx ax : gattr_ok pi a R ->
+  exists tx' ax', steps (sin pi pre (render_gattr a ++ R) tx ax) [expect_gattr a] (sin pi (pre ++ norm_gattr a) R tx' ax').
 Proof.
-  destruct a as [lead name [|w1 w2 x|w1 w2 q x]]; [apply lex_gattr_none|apply lex_gattr_unq|apply lex_gattr_quo].
+  destruct a as [lead name [|w1 w2 x|w1 w2 q x|w1 w2 q x]]; [apply lex_gattr_none|apply lex_gattr_unq|apply lex_gattr_quo|].
+  intros Hok. assert (pi = true) as -> by (destruct Hok as (_ & _ & _ & _ & _ & _ & _ & _ & Hp & _); exact Hp).
+  apply lex_gattr_cut. exact Hok.
 Qed.
 
 Lemma next_not_eq_app rest r : next_not_eq rest -> next_not_eq (rest ++ r).
@@ -1271,29 +1423,30 @@ Proof.
 Qed.
 
 (* the side conditions only look at the beginning of what follows *)
-Lemma gattr_ok_app a rest r : rest <> [] -> gattr_ok a rest -> gattr_ok a (rest ++ r).
+Lemma gattr_ok_app pi a rest r : rest <> [] -> gattr_ok pi a rest -> gattr_ok pi a (rest ++ r).
 Proof.
-  intros Hne (Hl & Hv). split; [exact Hl|]. destruct (g_val a) as [|w1 w2 x|w1 w2 q x].
+  intros Hne (Hl & Hv). split; [exact Hl|]. destruct (g_val a) as [|w1 w2 x|w1 w2 q x|w1 w2 q x].
   - destruct Hv as (H1 & H2 & H3 & H4). rewrite (getz_app_hd rest r) by exact Hne.
     repeat split; try assumption; [apply name_end_app; exact H3|apply next_not_eq_app; exact H4].
   - destruct Hv as (H1 & H2 & H3 & H4 & H5 & H6 & H7 & H8 & H9).
     rewrite (getz_app_hd rest r) by exact Hne. rewrite (app_assoc x rest r). rewrite (getz_app_hd (x ++ rest)) by (destruct x; [exact Hne|discriminate]).
     repeat split; try assumption. apply name_end_app; exact H6.
   - exact Hv.
+  - destruct Hv as (H1 & H2 & H3 & H4 & H5 & H6 & H7 & H8 & (t & ->)). repeat split; try assumption. exists (t ++ r). reflexivity.
 Qed.
 
-Lemma lex_gattrs ps : forall pre tail r tx ax, tail <> [] -> gattrs_ok ps tail ->
-  exists tx' ax', steps (sin pre (render_gattrs ps ++ tail ++ r) tx ax) (map expect_gattr ps)
-                        (sin (pre ++ norm_gattrs ps) (tail ++ r) tx' ax').
+Lemma lex_gattrs pi ps : forall pre tail r tx ax, tail <> [] -> gattrs_ok pi ps tail ->
+  exists tx' ax', steps (sin pi pre (render_gattrs ps ++ tail ++ r) tx ax) (map expect_gattr ps)
+                        (sin pi (pre ++ norm_gattrs ps) (tail ++ r) tx' ax').
 Proof.
   induction ps as [|a ps IH]; intros pre tail r tx ax Ht Hok.
   - exists tx, ax. cbn [render_gattrs norm_gattrs map concat app]. rewrite app_nil_r. apply steps_nil.
   - destruct Hok as (Ha & Hrest).
     unfold render_gattrs, norm_gattrs. cbn [map concat]. rewrite <- app_assoc.
-    assert (Ha' : gattr_ok a ((render_gattrs ps ++ tail) ++ r)).
+    assert (Ha' : gattr_ok pi a ((render_gattrs ps ++ tail) ++ r)).
     { apply gattr_ok_app; [|exact Ha]. intros E. apply app_eq_nil in E. destruct E as (_ & E). exact (Ht E). }
     rewrite <- app_assoc in Ha'.
-    destruct (lex_gattr pre a _ tx ax Ha') as (tx1 & ax1 & S1).
+    destruct (lex_gattr pi pre a _ tx ax Ha') as (tx1 & ax1 & S1).
     destruct (IH (pre ++ norm_gattr a) tail r tx1 ax1 Ht Hrest) as (tx2 & ax2 & S2).
     exists tx2, ax2. rewrite (app_assoc pre (norm_gattr a)).
     change (expect_gattr a :: map expect_gattr ps) with ([expect_gattr a] ++ map expect_gattr ps).
@@ -1301,30 +1454,34 @@ Proof.
 Qed.
 
 (* ---- whole tags, items, documents ------------------------------------------------------------------------------------ *)
-Lemma lex_attrs attrs : forall pre r tx ax, Forall attr_ok attrs ->
-  exists tx' ax', steps (sin pre (render_attrs attrs ++ r) tx ax) (map expect_attr attrs)
-                        (sin (pre ++ norm_attrs attrs) r tx' ax').
+Lemma lex_attrs pi attrs : forall pre r tx ax, Forall attr_ok attrs ->
+  (pi = true -> Forall (fun a => no_pi_end (a_val a)) attrs) ->
+  exists tx' ax', steps (sin pi pre (render_attrs attrs ++ r) tx ax) (map expect_attr attrs)
+                        (sin pi (pre ++ norm_attrs attrs) r tx' ax').
 Proof.
-  induction attrs as [|a attrs IH]; intros pre r tx ax Hok.
+  induction attrs as [|a attrs IH]; intros pre r tx ax Hok Hnp.
   - exists tx, ax. cbn [render_attrs norm_attrs map concat app]. rewrite app_nil_r. apply steps_nil.
   - inversion Hok as [|? ? Ha Hrest]; subst.
     unfold render_attrs, norm_attrs. cbn [map concat]. rewrite <- app_assoc.
-    destruct (lex_attr pre a (concat (map render_attr attrs) ++ r) tx ax Ha) as (tx1 & ax1 & S1).
+    destruct (lex_attr pi pre a (concat (map render_attr attrs) ++ r) tx ax Ha) as (tx1 & ax1 & S1).
+    { intros Hp. specialize (Hnp Hp). inversion Hnp; assumption. }
     destruct (IH (pre ++ norm_attr a) r tx1 ax1 Hrest) as (tx2 & ax2 & S2).
+    { intros Hp. specialize (Hnp Hp). inversion Hnp; assumption. }
     exists tx2, ax2. rewrite (app_assoc pre (norm_attr a)).
     change (expect_attr a :: map expect_attr attrs) with ([expect_attr a] ++ map expect_attr attrs).
     eapply steps_app; [exact S1|]. unfold render_attrs, norm_attrs in S2. exact S2.
 Qed.
 
-Lemma lex_tag_rest pre attrs ws k r tx ax : Forall attr_ok attrs -> all_ws ws -> is_closer_ty k ->
-  steps (sin pre (render_attrs attrs ++ ws ++ closer_bytes k ++ r) tx ax)
+Lemma lex_tag_rest pi pre attrs ws k r tx ax : Forall attr_ok attrs -> all_ws ws -> is_closer_ty k ->
+  (pi = true -> k = TStartTagClosePI) -> (pi = true -> Forall (fun a => no_pi_end (a_val a)) attrs) ->
+  steps (sin pi pre (render_attrs attrs ++ ws ++ closer_bytes k ++ r) tx ax)
         (map expect_attr attrs ++ [(k, Some (closer_bytes k), None, None)])
         (sout (pre ++ norm_attrs attrs ++ ws ++ closer_bytes k) r None).
 Proof.
-  intros Ha Hw Hk.
-  destruct (lex_attrs attrs pre (ws ++ closer_bytes k ++ r) tx ax Ha) as (tx1 & ax1 & S1).
+  intros Ha Hw Hk Hpi Hnp.
+  destruct (lex_attrs pi attrs pre (ws ++ closer_bytes k ++ r) tx ax Ha Hnp) as (tx1 & ax1 & S1).
   eapply steps_app; [exact S1|].
-  pose proof (lex_closer (pre ++ norm_attrs attrs) ws k r tx1 ax1 Hw Hk) as S2.
+  pose proof (lex_closer pi (pre ++ norm_attrs attrs) ws k r tx1 ax1 Hw Hk Hpi) as S2.
   rewrite <- app_assoc in S2. exact S2.
 Qed.
 
@@ -1346,7 +1503,7 @@ Proof.
   - destruct Hok as (Hz & Hno). rewrite <- !app_assoc. apply lex_cdata; [assumption|].
     apply (no_closer_ppq 93 62); [lia|exact Hno].
   - rewrite <- !app_assoc. apply lex_doctype; assumption.
-  - destruct Hok as (Hn & Ha & Hw). rewrite <- !app_assoc.
+  - destruct Hok as (Hn & Ha & Hw & Hnp). rewrite <- !app_assoc.
     change ([63; 62] ++ r) with (closer_bytes TStartTagClosePI ++ r).
     destruct (lex_pitarget pre n (render_attrs attrs ++ ws ++ closer_bytes TStartTagClosePI ++ r) tx Hn) as (tx1 & S1).
     { apply name_end_tag_rest; unfold is_closer_ty; auto. }
@@ -1354,7 +1511,7 @@ Proof.
     change ((TStartTagPI, Some ([60; 63] ++ n), Some n, None) :: map expect_attr attrs ++ [(TStartTagClosePI, Some [63; 62], None, None)])
       with ([(TStartTagPI, Some ([60; 63] ++ n), Some n, None)] ++ (map expect_attr attrs ++ [(TStartTagClosePI, Some (closer_bytes TStartTagClosePI), None, None)])).
     eapply steps_app; [exact S1|].
-    pose proof (lex_tag_rest (pre ++ [60; 63] ++ n) attrs ws TStartTagClosePI r tx1 None Ha Hw ltac:(unfold is_closer_ty; auto)) as S2.
+    pose proof (lex_tag_rest true (pre ++ [60; 63] ++ n) attrs ws TStartTagClosePI r tx1 None Ha Hw ltac:(unfold is_closer_ty; auto) ltac:(auto) ltac:(auto)) as S2.
     rewrite <- !app_assoc in S2. exact S2.
   - destruct Hok as (Hn & H33 & Ha & Hw). rewrite <- !app_assoc.
     set (k := if void then TStartTagCloseVoid else TStartTagClose).
@@ -1362,7 +1519,7 @@ Proof.
     assert (Ek : (if void then [47; 62] else [62]) = closer_bytes k) by (unfold k; destruct void; reflexivity).
     rewrite Ek.
     destruct (lex_starttag pre n (render_attrs attrs ++ ws ++ closer_bytes k ++ r) tx Hn H33) as (tx1 & S1).
-    { apply name_end_tag_rest; assumption. }
+    { apply name_end_tag_rest; try assumption. discriminate. }
     exists None.
     assert (Ee : (if void then (TStartTagCloseVoid, Some [47; 62], None, None) else (TStartTagClose, Some [62], None, None))
                  = ((k, Some (closer_bytes k), None, None) : etok)) by (unfold k; destruct void; reflexivity).
@@ -1370,23 +1527,23 @@ Proof.
     change ((TStartTag, Some ([60] ++ n), Some n, None) :: map expect_attr attrs ++ [(k, Some (closer_bytes k), None, None)])
       with ([(TStartTag, Some ([60] ++ n), Some n, None)] ++ (map expect_attr attrs ++ [(k, Some (closer_bytes k), None, None)])).
     eapply steps_app; [exact S1|].
-    pose proof (lex_tag_rest (pre ++ [60] ++ n) attrs ws k r tx1 None Ha Hw Hk) as S2.
+    pose proof (lex_tag_rest false (pre ++ [60] ++ n) attrs ws k r tx1 None Ha Hw Hk ltac:(discriminate) ltac:(discriminate)) as S2.
     rewrite <- !app_assoc in S2. exact S2.
   - destruct Hok as (Hn & Hw). rewrite <- !app_assoc. apply lex_endtag; assumption.
-  - destruct Hok as (Hn & H33 & Hw & Hk & Hgs & Hend).
+  - destruct Hok as (Hn & H33 & Hw & Hk & Hpi & Hgs & Hend).
     assert (Htail : ws ++ closer_bytes k <> []).
     { intros E. apply app_eq_nil in E. destruct E as (_ & E). destruct Hk as [->|[->| ->]]; discriminate. }
-    assert (Hend' : name_end false (render_gattrs gs ++ (ws ++ closer_bytes k) ++ r)).
-    { pose proof (name_end_app false _ r Hend) as H. rewrite <- !app_assoc in H. rewrite <- app_assoc. exact H. }
+    assert (Hend' : name_end pi false (render_gattrs gs ++ (ws ++ closer_bytes k) ++ r)).
+    { pose proof (name_end_app pi false _ r Hend) as H. rewrite <- !app_assoc in H. rewrite <- app_assoc. exact H. }
     assert (Hopen : exists tx1, steps (sout pre (((if pi then [60; 63] else [60]) ++ n) ++ render_gattrs gs ++ (ws ++ closer_bytes k) ++ r) tx)
                       [((if pi then TStartTagPI else TStartTag), Some ((if pi then [60; 63] else [60]) ++ n), Some n, None)]
-                      (sin (pre ++ (if pi then [60; 63] else [60]) ++ n) (render_gattrs gs ++ (ws ++ closer_bytes k) ++ r) tx1 None)).
+                      (sin pi (pre ++ (if pi then [60; 63] else [60]) ++ n) (render_gattrs gs ++ (ws ++ closer_bytes k) ++ r) tx1 None)).
     { destruct pi; rewrite <- app_assoc.
       - apply lex_pitarget; assumption.
       - apply lex_starttag; [assumption|apply H33; reflexivity|assumption]. }
     destruct Hopen as (tx1 & S1).
-    destruct (lex_gattrs gs (pre ++ (if pi then [60; 63] else [60]) ++ n) (ws ++ closer_bytes k) r tx1 None Htail Hgs) as (tx2 & ax2 & S2).
-    pose proof (lex_closer ((pre ++ (if pi then [60; 63] else [60]) ++ n) ++ norm_gattrs gs) ws k r tx2 ax2 Hw Hk) as S3.
+    destruct (lex_gattrs pi gs (pre ++ (if pi then [60; 63] else [60]) ++ n) (ws ++ closer_bytes k) r tx1 None Htail Hgs) as (tx2 & ax2 & S2).
+    pose proof (lex_closer pi ((pre ++ (if pi then [60; 63] else [60]) ++ n) ++ norm_gattrs gs) ws k r tx2 ax2 Hw Hk Hpi) as S3.
     exists None.
     replace (((if pi then [60; 63] else [60]) ++ n ++ render_gattrs gs ++ ws ++ closer_bytes k) ++ r)
       with (((if pi then [60; 63] else [60]) ++ n) ++ render_gattrs gs ++ (ws ++ closer_bytes k) ++ r)
@@ -1405,8 +1562,8 @@ Qed.
 (* the terminal report at the end of the input is io.EOF *)
 Lemma lex_eof pre tx : lexes (sout pre [0] tx) [] 1.
 Proof.
-  assert (Hn : next (sout pre [0] tx) = Some (TError, None, mkX (cur pre [] [0]) false false None None)).
-  { unfold sout, next. cbn [xin xr xerr xattr xtext]. rewrite suffix_cur.
+  assert (Hn : next (sout pre [0] tx) = Some (TError, None, mkX (cur pre [] [0]) false false false None None)).
+  { unfold sout, next. cbn [xin xpi xr xerr xattr xtext]. rewrite suffix_cur.
     change (scan_while (until 60) [0]) with (Some 0). cbn [option_bind]. rewrite mv_cur0, pk_cur0.
     cbn [option_bind]. rewrite mark_cur. change (len (@nil Z)) with 0. change (0 <? 0) with false.
     change (0 =? 60) with false. cbv iota. unfold null_err. rewrite at_end_cur_end. reflexivity. }
@@ -1482,11 +1639,6 @@ Definition ex_squote_items2 : list item :=
               [DSub ([DILt [33; 69]] ++ map DIChar [78; 84; 73; 84; 89; 32; 101; 32] ++ [DIStrS [93; 34; 62; 91]] ++ [DIChar 62])]);
     IStart [97] [] [] true ].
 
-(* <?p a>b?><a/> : a '>' in the content of a processing instruction closes it as a start tag would be *)
+(* <?p a>b?><a/> : before the fix 2f59676 of /repo the '>' closed the instruction like a start tag; now only
+   ?> does, and a>b is one piece *)
 Definition ex_pi_gt : list Z := [60; 63; 112; 32; 97; 62; 98; 63; 62; 60; 97; 47; 62].
-
-Theorem xml_pi_content_refuted_proof :
-  exists d, d = ex_pi_gt /\
-    option_map (map (fun r => (fst (fst r), snd (fst r)))) (run 4 (xml_init d)) =
-    Some [(TStartTagPI, Some (0, 3)); (TAttribute, Some (3, 5)); (TStartTagClose, Some (5, 6)); (TText, Some (6, 9))].
-Proof. exists ex_pi_gt. split; [reflexivity|]. vm_compute. reflexivity. Qed.
